@@ -634,6 +634,45 @@ def arg_rows(src):
     good = bool(g and rm and g.group(1) == g.group(2) == g.group(3) and lk.end() <= g.start() and g.end() <= rm.start()
                 and sm[:g.start()].count("{") - sm[:g.start()].count("}") == sm[:lk.start()].count("{") - sm[:lk.start()].count("}"))
     rows.append(("setReadMode.tombGuard", [("expr", "closed-tombstone-returns-true-first", "1" if good else "0")]))
+    # C03 (review F5): the FULL text of every condition the model mirrors as a decision - operators and operands included (the event
+    # skeleton only says WHICH variables a condition reads): the wait predicate of receiveSync, its single-waiter guard, the teardown
+    # guard / overflow test / callback guard of the onData handler, the GC threshold test and GC gate of the close handler, the
+    # callback guard of the flush loop; and the ORDER mark -> global close callback -> observers of the close handler (FC03c).
+    od = blank_strings(lambda_body(impl, "cbs.onData"))
+    row = []
+
+    def one(name, rx, text, what):
+        hits = re.findall(rx, text, re.S)
+        if len(hits) != 1:
+            raise TranslateError("%s: expected exactly one `%s`, found %d" % (what, name, len(hits)))
+        row.append(("expr", name, _norm(hits[0])))
+    row.append(("expr", "recv.wait_until.pred", _norm(re.sub(r"//[^\n]*", "", wa[2])) if len(wa) > 2 else "-"))
+    one("recv.singleWaiterGuard", r"if\s*\(([^(){}]*waiters[^(){}]*)\)\s*\{\s*return\s+ReceiveResult::err", rs, "receiveSync")
+    one("onData.teardownGuard", r"if\s*\(([^(){}]*shuttingDown[^(){}]*)\)\s*\{\s*return\s*;", od, "onData handler")
+    one("onData.overflowCmp", r"if\s*\(([^{};]*maxSyncReceiveBuffer[^{};]*)\)\s*\{", od, "onData handler")
+    one("onData.cbGuard", r"if\s*\(([^(){}]*)\)\s*\{\s*cb\s*\(\s*sid\b", od, "onData handler")
+    one("onClose.gcThresholdCmp", r"if\s*\(([^{};]*gcThreshold[^{};]*)\)\s*\{", oc, "onClose handler")
+    one("onClose.gcGate", r"if\s*\(((?:[^(){}]|\([^()]*\))*)\)\s*\{\s*it\s*=\s*receiveBuffers\s*\.\s*erase\s*\(\s*it\s*\)", oc, "onClose handler")
+    one("flush.cbGuard", r"if\s*\(((?:[^(){}]|\([^()]*\))*)\)\s*\{\s*cb\s*\(\s*sid\b", sm, "setReadMode")
+    # FC03d: the BufferOverflow answer of receiveSync marks the buffer `overflowReported` (what the GC gate looks at) - the statements of
+    # the `if (buf->overflow) { … }` branch up to its return
+    m = re.search(r"if\s*\(\s*buf->overflow\s*\)\s*\{(.*?)return\s+ReceiveResult::err\s*\(\s*TransportErrorInfo\s*\{\s*TransportError::(\w+)", rs, re.S)
+    if not m:
+        raise TranslateError("receiveSync: the `if (buf->overflow) { … return err(…) }` branch was not found")
+    row.append(("expr", "recv.overflowBranch", _norm(re.sub(r"//[^\n]*", "", m.group(1))) + "return:" + m.group(2)))
+    pos = {"mark": [m.start() for m in re.finditer(r"->\s*closed\s*=\s*true", oc)] + er,
+           "closeCb": [m.start() for m in re.finditer(r"(?<![\w.>])closeCb\s*\(\s*sid\b", oc)],
+           "obsCb": [m.start() for m in re.finditer(r"(?<![\w.>])obsCb\s*\(\s*sid\b", oc)]}
+    if len(pos["mark"]) != 3 or len(pos["closeCb"]) != 1 or len(pos["obsCb"]) != 1:
+        raise TranslateError("onClose handler: expected two `closed = true`, one readModes.erase(sid), one closeCb(sid…) and one obsCb(sid…), found %r"
+                             % {k: len(v) for k, v in pos.items()})
+    order = sorted([(p, k) for k, v in pos.items() for p in v])
+    seq = []
+    for _, k in order:
+        if not seq or seq[-1] != k:
+            seq.append(k)
+    row.append(("expr", "onClose.order", ",".join(seq)))
+    rows.append(("c03.exprs", row))
     return rows
 
 
